@@ -48,7 +48,7 @@ PROPS = {
                         "DROP SERIES FROM rp.m is taken to name the series of that policy only; DROP SERIES FROM m the series of m in every policy",
                         "predicates use literal regular expressions only (non-literal ones are C10's known findings); integers inside +-2^53, no NaN/Inf; 1 WAL partition (C01's defect kept out); aggregates over a field every row carries, one call per statement, grouped by all tags (C09's known findings kept out)",
                         "per-shard results are not merged across shards (the query layer above the store reader is not assembled)"],
-        "quick": {"runs": 900, "budget_s": 150, "workers": 14},
+        "quick": {"runs": 900, "budget_s": 120, "workers": 14},
         "thorough": {"runs": 20000, "budget_s": 1500, "workers": 16, "env": {"VERIF_RUN_TIMEOUT_S": "900"}},
     },
 }
